@@ -307,3 +307,88 @@ def rec_total(jp, q: str, doc, env=None, paths: bool = False):
         rec["timeout"] = False
         _err(rec, err, jp.JSONPathError)
     return rec
+
+
+# --------------------------------------------------------------------------
+# compile() in a child process that can be KILLED (a regular expression that
+# backtracks exponentially never returns to the interpreter: no signal handler
+# runs, no in-process guard fires)
+# --------------------------------------------------------------------------
+_CHILD = r'''
+import json, sys
+sys.dont_write_bytecode = True
+sys.path.insert(0, sys.argv[1])
+sys.path.insert(0, sys.argv[2])
+from harness import core, impl
+jp = core.import_repo()
+for line in open(sys.argv[3]):
+    q = "".join(chr(c) for c in json.loads(line))
+    rec = {"op": "compile", "q": [ord(c) for c in q]}
+    try:
+        c = jp.compile(q)
+        rec.update(out="ok", jp=True, cls="")
+        try:
+            str(c)
+        except Exception as err:
+            rec.update(out="raise", jp=False, cls="str(query) raised " + type(err).__name__, msg="", strok=True)
+    except BaseException as err:
+        impl._err(rec, err, jp.JSONPathError)
+    sys.stdout.write(json.dumps(rec) + "\n")
+    sys.stdout.flush()
+'''
+
+
+def isolated_compile_records(texts, per_text: float = 10.0, max_timeouts: int = 4):
+    """compile() (and str() of the result) for every text, in a child process that is killed when one call does not come back
+    within per_text seconds.  Returns (records, timeouts); after max_timeouts the remaining texts are not run."""
+    import json  # noqa: PLC0415
+    import os  # noqa: PLC0415
+    import select  # noqa: PLC0415
+    import subprocess  # noqa: PLC0415
+    import sys  # noqa: PLC0415
+    import time  # noqa: PLC0415
+
+    verif = os.path.dirname(os.path.dirname(os.path.abspath(__file__)))
+    recs: List[Dict[str, Any]] = []
+    timeouts = 0
+    todo = list(texts)
+    env = dict(os.environ, PYTHONDONTWRITEBYTECODE="1", VERIF_REPO=core.REPO)
+    while todo and timeouts < max_timeouts:
+        inp = os.path.join(core.scratch(), f"isolated-{os.getpid()}-{len(todo)}.ndjson")
+        with open(inp, "w") as fh:
+            fh.write("".join(json.dumps([ord(c) for c in q]) + "\n" for q in todo))
+        p = subprocess.Popen([sys.executable, "-c", _CHILD, core.REPO, verif, inp], stdin=subprocess.DEVNULL, stdout=subprocess.PIPE,
+                             stderr=subprocess.DEVNULL, env=env, cwd=verif)
+        buf = b""
+        done = 0
+        deadline = time.time() + per_text + 5.0          # the first answer includes the child's start-up
+        killed = False
+        while done < len(todo):
+            nl = buf.find(b"\n")
+            if nl >= 0:
+                recs.append(json.loads(buf[:nl]))
+                buf = buf[nl + 1:]
+                done += 1
+                deadline = time.time() + per_text
+                continue
+            left = deadline - time.time()
+            ready = select.select([p.stdout], [], [], max(left, 0))[0] if left > 0 else []
+            if not ready:
+                p.kill()
+                killed = True
+                break
+            chunk = os.read(p.stdout.fileno(), 1 << 16)
+            if not chunk:
+                break
+            buf += chunk
+        p.wait()
+        if done < len(todo):
+            q = todo[done]
+            if killed:
+                timeouts += 1
+                recs.append({"op": "compile", "q": core.enc_text(q), "out": "raise", "jp": True, "cls": "timeout", "timeout": True})
+            else:
+                recs.append({"op": "compile", "q": core.enc_text(q), "out": "raise", "jp": False, "cls": "the interpreter died", "msg": "", "strok": True})
+            done += 1
+        todo = todo[done:]
+    return recs, timeouts
